@@ -36,17 +36,20 @@ CONSTANTS
   PermTO,       \* ServerConfig.PermissionTimeout
   ChanTO,       \* ServerConfig.ChannelBindTimeout
   MaxLife,      \* maximumAllocationLifetime = 3600
-  Denied,       \* {<<client, peerIP>>} refused by the operator's permission handler
+  Denied,       \* {<<client, peerIP>>} refused by the operator's permission handler (when the server starts)
+  Vetoable,     \* {<<client, peerIP>>} whose verdict the operator may change at run time (a block list)
   Toks,         \* EVEN-PORT / RESERVATION-TOKEN classes tried in Allocate: "none", "even" (EVEN-PORT), "bogus"
                 \* (a token nobody issued), or a client name (the token most recently issued to that client)
   ResvTO,       \* lifetime of a reservation: 30 s
   QuotaDenied   \* users the operator's quota handler refuses a (new) allocation: 486
 
-VARIABLES alloc, perm, chan, resv, out, last
+VARIABLES alloc, perm, chan, resv, veto, out, last
 
 \* resv[c]: seconds left of the reservation (relayed port + 1) made by c's last EVEN-PORT allocation, 0 = none
-vars  == <<alloc, perm, chan, resv, out, last>>
-state == <<alloc, perm, chan, resv>>
+\* veto: the pairs the operator's permission handler refuses NOW.  The handler is asked on every CreatePermission and
+\* every ChannelBind (a refreshing one included); what was installed before a verdict changed lives out its time.
+vars  == <<alloc, perm, chan, resv, veto, out, last>>
+state == <<alloc, perm, chan, resv, veto>>
 
 Peers    == PeerIPs \X PeerPorts
 StreamClients == Clients \cap {"s1", "s2", "sx"}   \* (sx: the address of s1 once more, connected to a second stream listener)
@@ -72,6 +75,7 @@ Init ==
   /\ perm  = [c \in Clients |-> NoPerms]
   /\ chan  = [c \in Clients |-> NoChans]
   /\ resv  = [c \in Clients |-> 0]
+  /\ veto  = Denied
   /\ out   = {}
   /\ last  = [a |-> "Init"]
 
@@ -122,7 +126,7 @@ Allocate(c, u, lr, tx, rf, tk) ==
                     /\ alloc' = [alloc EXCEPT ![c] =
                          [live |-> TRUE, user |-> u, fam |-> FamOf(c, rf), rem |-> Granted(lr), tx |-> tx, port |-> port]]
                     /\ resv' = IF tk = "even" THEN [resv EXCEPT ![c] = ResvTO] ELSE resv
-                    /\ UNCHANGED <<perm, chan>>
+                    /\ UNCHANGED <<perm, chan, veto>>
                     /\ out' = {[k |-> "resp", to |-> c, m |-> "Allocate", cls |-> "ok", code |-> 0,
                                 mapped |-> c, relay |-> c, life |-> Granted(lr), port |-> port]}
 
@@ -135,7 +139,7 @@ AllocateLostWrite(c, u, tx) ==
   /\ last' = [a |-> "AllocateLostWrite", c |-> c, u |-> u, tx |-> tx]
   /\ alloc' = [alloc EXCEPT ![c] =
        [live |-> TRUE, user |-> u, fam |-> FamOf(c, 0), rem |-> DefaultLife, tx |-> tx, port |-> <<"any">>]]
-  /\ UNCHANGED <<perm, chan, resv>>
+  /\ UNCHANGED <<perm, chan, resv, veto>>
   /\ out' = {}
 
 (* handleRefreshRequest.  rf: REQUESTED-ADDRESS-FAMILY (0 = absent).        *)
@@ -149,10 +153,10 @@ Refresh(c, u, lr, rf) ==
            THEN /\ alloc' = [alloc EXCEPT ![c] = NoAlloc]
                 /\ perm'  = [perm EXCEPT ![c] = NoPerms]
                 /\ chan'  = [chan EXCEPT ![c] = NoChans]
-                /\ UNCHANGED resv
+                /\ UNCHANGED <<resv, veto>>
                 /\ out'   = {[k |-> "resp", to |-> c, m |-> "Refresh", cls |-> "ok", code |-> 0, life |-> 0]}
            ELSE /\ alloc' = [alloc EXCEPT ![c].rem = Granted(lr)]
-                /\ UNCHANGED <<perm, chan, resv>>
+                /\ UNCHANGED <<perm, chan, resv, veto>>
                 /\ out'   = {[k |-> "resp", to |-> c, m |-> "Refresh", cls |-> "ok", code |-> 0,
                               life |-> Granted(lr)]}
 
@@ -160,7 +164,7 @@ Refresh(c, u, lr, rf) ==
 (* order ips.  Peers before the first refused one are installed although   *)
 (* the answer is an error (PartialInstallBeforeRefusal, a named deviation  *)
 (* the properties are silent about).                                       *)
-Refused(c, i) == Fam[i] # alloc[c].fam \/ <<c, i>> \in Denied
+Refused(c, i) == Fam[i] # alloc[c].fam \/ <<c, i>> \in veto
 FirstRefused(c, ips) ==
   IF \E k \in 1..Len(ips) : Refused(c, ips[k])
     THEN CHOOSE k \in 1..Len(ips) : Refused(c, ips[k]) /\ \A j \in 1..(k-1) : ~Refused(c, ips[j])
@@ -172,7 +176,7 @@ CreatePermission(c, u, ips) ==
        ELSE LET fr   == FirstRefused(c, ips)
                 inst == {ips[k] : k \in 1..(fr - 1)}
             IN /\ perm' = [perm EXCEPT ![c] = [i \in PeerIPs |-> IF i \in inst THEN PermTO ELSE @[i]]]
-               /\ UNCHANGED <<alloc, chan, resv>>
+               /\ UNCHANGED <<alloc, chan, resv, veto>>
                /\ out' = IF fr > Len(ips)
                            THEN {Ok(c, "CreatePermission")}
                            ELSE {Err(c, "CreatePermission", 0)}
@@ -190,7 +194,7 @@ ChannelBind(c, u, n, p) ==
            THEN UNCHANGED state /\ out' = {Err(c, "ChannelBind", 400)}
            ELSE /\ chan' = [chan EXCEPT ![c][n] = [bound |-> TRUE, peer |-> p, rem |-> ChanTO]]
                 /\ perm' = [perm EXCEPT ![c][p[1]] = PermTO]       \* with the permission timeout
-                /\ UNCHANGED <<alloc, resv>>
+                /\ UNCHANGED <<alloc, resv, veto>>
                 /\ out'  = {Ok(c, "ChannelBind")}
 
 (* Wire sizes (bytes) of the client's messages as the harness builds them: ChannelData is a  *)
@@ -249,7 +253,7 @@ ConnClose(c) ==
   /\ alloc' = [alloc EXCEPT ![c] = NoAlloc]
   /\ perm'  = [perm EXCEPT ![c] = NoPerms]
   /\ chan'  = [chan EXCEPT ![c] = NoChans]
-  /\ UNCHANGED resv
+  /\ UNCHANGED <<resv, veto>>
   /\ out' = {}
 
 ---------------------------------------------------------------------------
@@ -275,9 +279,18 @@ Advance(d) ==
                     IF c \in dead \/ ~chan[c][n].bound \/ chan[c][n].rem <= d THEN NoChan
                     ELSE [chan[c][n] EXCEPT !.rem = @ - d]]]
      /\ resv'  = [c \in Clients |-> IF resv[c] <= d THEN 0 ELSE resv[c] - d]
+  /\ UNCHANGED veto
   /\ out' = {}
 
 ---------------------------------------------------------------------------
+(* the operator changes its mind about a pair (a run-time block list behind the PermissionHandler) *)
+Veto(c, i) ==
+  /\ <<c, i>> \in Vetoable
+  /\ last' = [a |-> "Veto", c |-> c, i |-> i, on |-> (<<c, i>> \notin veto)]
+  /\ veto' = IF <<c, i>> \in veto THEN veto \ {<<c, i>>} ELSE veto \cup {<<c, i>>}
+  /\ UNCHANGED <<alloc, perm, chan, resv>>
+  /\ out' = {}
+
 Next ==
   \/ \E c \in Clients : Binding(c)
   \/ \E c \in Clients, u \in Users, lr \in LifeReqs, tx \in Txids, rf \in ReqFams, tk \in Toks : Allocate(c, u, lr, tx, rf, tk)
@@ -290,6 +303,7 @@ Next ==
   \/ \E c \in StreamClients : ConnClose(c)
   \/ \E c \in Clients, u \in Users, tx \in Txids : AllocateLostWrite(c, u, tx)
   \/ \E d \in Jumps : Advance(d)
+  \/ \E c \in Clients, i \in PeerIPs : Veto(c, i)
 
 Spec == Init /\ [][Next]_vars
 View == state
@@ -318,9 +332,18 @@ C01_OnlyAuthorised ==
 \* C01: a vetoed or wrong-family peer is never installed
 C01_NeverInstalled ==
   \A c \in Clients, i \in PeerIPs :
-     (Live(c) /\ (<<c, i>> \in Denied \/ Fam[i] # alloc[c].fam)) =>
+     (Live(c) /\ (<<c, i>> \in (Denied \ Vetoable) \/ Fam[i] # alloc[c].fam)) =>
         /\ perm[c][i] = 0
         /\ \A n \in ChanNums : chan[c][n].bound => chan[c][n].peer[1] # i
+
+\* C01: the operator's handler is asked every time: a permission or a binding is installed or prolonged only for a
+\* peer the handler admits at that moment (what it admitted earlier lives out its time, no longer)
+C01_AskedEveryTime ==
+  [][\A c \in Clients, i \in PeerIPs :
+        (\/ perm'[c][i] > perm[c][i]
+         \/ \E n \in ChanNums : /\ chan'[c][n].bound /\ chan'[c][n].peer[1] = i
+                                 /\ (~chan[c][n].bound \/ chan'[c][n].rem > chan[c][n].rem))
+          => <<c, i>> \notin veto]_vars
 
 \* C02: whatever reaches a client because of a peer datagram goes to the owner of the relayed
 \* address only and is justified by a permission for the source IP or a channel bound to
